@@ -1016,6 +1016,22 @@ func FromOCISpec(s *rspec.Spec, cdi []string) Oci {
 			}
 		}
 	}
+	out.Devc = Strs{}
+	if s != nil && s.Linux != nil && s.Linux.Resources != nil {
+		for _, r := range s.Linux.Resources.Devices {
+			if !r.Allow {
+				continue
+			}
+			mj, mn := "-", "-"
+			if r.Major != nil {
+				mj = i64s(*r.Major)
+			}
+			if r.Minor != nil {
+				mn = i64s(*r.Minor)
+			}
+			out.Devc = append(out.Devc, r.Type+"|"+mj+"|"+mn)
+		}
+	}
 	return out
 }
 
